@@ -250,7 +250,8 @@ def rand_value(r, kind):
     if kind == "measurements":
         n = r.randint(1, 5)
         k = r.choice([0, 1, 2, 5, 12])
-        return {"bits": [[r.randint(0, 1) for _ in range(n)] for _ in range(k)], "np": r.random() < 0.3}
+        # bits as Python ints, numpy integers or Python bools (bool is an int; json writes true/false)
+        return {"bits": [[r.randint(0, 1) for _ in range(n)] for _ in range(k)], "np": r.random() < 0.3, "bool": r.random() < 0.15}
     if kind == "expvals":
         n = r.randint(1, 4)
         cp = r.choice([0.0, 0.5, 1.0])
@@ -546,6 +547,9 @@ class World:
             if not spec["bits"]:
                 ctx.probe("measurements-empty")
             bits = [tuple(np.int8(b) for b in bs) if spec["np"] else tuple(bs) for bs in spec["bits"]]
+            if spec.get("bool") and not spec["np"]:
+                bits = [tuple(bool(b) for b in bs) for bs in spec["bits"]]
+                ctx.probe("measurements-bool-bits")
             return MM.Measurements(bits)
         if kind == "expvals":
             vals = arr(spec["values"])
